@@ -56,7 +56,7 @@ def run_case(case, ctx):
 	gi = gindex.get(id(cm.genome))
 	if gi is None:
 		raise Violation('closest_genome', 'closest match genome is not one of the reference genomes', case)
-	if J.float_to_bits(cm.distance) != J.float_to_bits(dmin) or J.float_to_bits(dists[gi]) != J.float_to_bits(dmin):
+	if float(cm.distance) != float(dmin) or J.float_to_bits(dists[gi]) != J.float_to_bits(dmin):
 		raise Violation('closest_not_min', f'closest match is genome {gi} at {float(cm.distance)!r}, minimum distance is {dmin!r}', case)
 	t0 = genome_taxa[gi]
 	exp_pred = F.match(t0, dmin)
